@@ -1625,7 +1625,12 @@ fn main() {
                 match res {
                     Ok(w) => {
                         let _ = std::fs::write(&marker, b"");
-                        std::thread::sleep(std::time::Duration::from_millis(*ms));
+                        // held until the simulator says so (a file appears), at most `ms`
+                        let release = std::path::Path::new(&xdg).join(".verif-release");
+                        let t0 = std::time::Instant::now();
+                        while !release.exists() && t0.elapsed() < std::time::Duration::from_millis(*ms) {
+                            std::thread::sleep(std::time::Duration::from_millis(5));
+                        }
                         drop(w);
                         let _ = std::fs::remove_file(&marker);
                         emit(&h.log, &Event::Held { held: true, why: String::new() });
